@@ -47,7 +47,8 @@ const REAL_FAIL: [&str; 20] = [
     "x = set_is_empty nothandle", "x = set_from_array nothandle", "map_contains_value nothandle v",
     "x = sha256sum /no/such/file/verif", "x = array_join nothandle",
     "array_push nothandle 1", "substring abc 9", "array_pop nothandle", "x = calc 1 +", "map_put nomap k v", "x = array_is_empty nothandle", "x = substring abc 9", "read_properties", "x = set_contains nothandle v", "x = base64", "x = array_join nothandle ,", "array_is_empty nothandle"];
-const MAIN: &str = "main.ds";
+// (a backslash and a blank are legal in a unix file name: the reported source is this very text)
+const MAIN: &str = "ma\\in job.ds";
 const INC: &str = "inc.ds";
 
 #[derive(Clone)]
@@ -429,7 +430,10 @@ fn check(r: &Req, o: &Obs) -> Result<(), String> {
 
 fn adversarial_msg(rng: &mut Rng, k: usize) -> String {
     match rng.below(6) {
-        0 => format!("err{}", k),
+        0 => {
+            // sometimes a very long report (longer than any plausible internal buffer)
+            if rng.chance(1, 12) { format!("err{} {}", k, "long report line ".repeat(300 + rng.below(400))) } else { format!("err{}", k) }
+        }
         1 => rng.pick_s(&["${x}", "%{x}", "\\${x}", "a \"b\" c", "# not a comment", "x = y", "cr\rlf\nnl", "  lead and trail  ", "é漢😀", "", "${", "%{y} %{z}", "\"", "true", "false"]).to_string(),
         _ => pools::value(rng),
     }
